@@ -16,7 +16,8 @@ RULE = ("pairs of quantities of one dimension (for + - == <) or any dimensions (
         "= (operator, shape classes of both operands as written); non-trivial = the two operands are written in "
         "different units"
         " A quarter of the operands are Decimals, some pairs are one object, and a section states a user unit, uses it, states it again with a corrected number (through Unit.equals or conversions.equate with numbers on both sides) and demands one physical answer whatever unit the other operand is written in."
-        " Chains of 3-40 declarations are first asked across with only 3-80 interpreter frames to spare (RecursionError anywhere in the search), then again with all the stack.")
+        " Chains of 3-40 declarations are first asked across with only 3-80 interpreter frames to spare (RecursionError anywhere in the search), then again with all the stack."
+        " Ladders of declarations 5-12 compound steps deep; the aliasing probe runs first.")
 ASSUMPTIONS = [
     "SI value = magnitude x unit-size interval from the declaration-log oracle, computed outside the library",
     "tolerance for + and - is relative to the larger operand (cancellation), 1e-5 per degree as for conversions; "
